@@ -2,8 +2,9 @@
 
 G  spec/Convert.tla: a world of container slots over a chunk table; every public call (convert for every format pair that
    has one, clone x 5 modes, data/index type conversion, transpose, permute, layout constructor, graph constructor,
-   copy, format, poke through the raw value pointer) is one action whose post-state (raw arrays, dimensions, Abs, which
-   arrays are shared) is defined from Storage.tla / IntLinAlg.tla.  TLC enumerates seed matrices x calls and histories of
+   copy, format, poke through the raw value pointer, and the remaining ways a matrix is built: SparseMatrixCSCR(csr, mirror),
+   converting and allocating constructors, SparseMatrixFactory, convert_reverse) is one action whose post-state (raw arrays,
+   dimensions, Abs, which arrays are shared) is defined from Storage.tla / IntLinAlg.tla.  TLC enumerates seed matrices x calls and histories of
    calls (BFS) and random longer histories (-simulate, thorough tier); harness/c02_convert.cpp replays each history on the
    real containers and compares every slot after every step.
 M  the laws AbsPreserved / RepValid / alias-exactness are invariants of the same runs (LawsHold, RepValid, ChunksExist).
@@ -142,12 +143,27 @@ def sig_of(case, k, what):
     return sig
 
 
+def run_cases_retry(binary, cases, **kw):
+    """vlib.run_cases; a harness process that dies OUTSIDE the journalled window of a case (killed at start-up on an overloaded
+    machine, ...) is a transient machinery condition: the whole batch is replayed once more before giving up"""
+    try:
+        return vlib.run_cases(binary, cases, **kw)
+    except vlib.MachineryError as e:
+        if "died outside a case" not in str(e):
+            raise
+        print("[C02] replay batch repeated after: %s" % str(e)[:300], flush=True)
+        return vlib.run_cases(binary, cases, **kw)
+
+
 def run_alone(binary, path, k, case):
     """replay history k of ndjson file `path` alone in a fresh process"""
     import subprocess
     e = dict(os.environ); e.setdefault("OMP_NUM_THREADS", "1")
-    p = subprocess.run([binary, "--cases", path, "--only", str(k), "--timeout", "20"], stdout=subprocess.PIPE, stderr=subprocess.PIPE, env=e,
-                       errors="replace", text=True)
+    for attempt in (0, 1):
+        p = subprocess.run([binary, "--cases", path, "--only", str(k), "--timeout", "20"], stdout=subprocess.PIPE, stderr=subprocess.PIPE, env=e,
+                           errors="replace", text=True)
+        if "B %d" % k in p.stdout:
+            break          # (not reached: killed before the history was started - tried once more)
     for line in p.stdout.splitlines():
         if line.startswith("R "):
             sp = line.split(" ", 2)
@@ -173,7 +189,7 @@ def confirm_and_localise(binary, path, k, case):
     if len(case["steps"]) == 2:
         return r, 1, r.get("outcome", "mismatch")
     pre = [{"ns": case["ns"], "steps": case["steps"][:j + 1]} for j in range(1, len(case["steps"]))]
-    rs = vlib.run_cases(binary, pre, tmo=20, shards=1)
+    rs = run_cases_retry(binary, pre, tmo=20, shards=1)
     for j, x in enumerate(rs):
         if x.get("ok") is not True:
             return r, j + 1, r.get("outcome") or x.get("outcome") or "mismatch"
@@ -223,7 +239,7 @@ def one_config(binary, k, c):
     r.out = r.out[-4000:] if not r.violation else r.out
     if not cases:
         return out
-    res = vlib.run_cases(binary, cases, tmo=20, shards=max(2, vlib.NCPU // 3))
+    res = run_cases_retry(binary, cases, tmo=20, shards=max(2, vlib.NCPU // 3))
     for cse in cases:
         out["steps"] += len(cse["steps"]) - 1
         for st in cse["steps"][1:]:
@@ -267,9 +283,14 @@ def run(chk):
     chk.exhaustive = True
     chk.rule = ("every behaviour of spec/Convert.tla within the configured bounds: (a) every seed matrix of the palettes (all sparsity patterns of "
                 "the listed shapes per format, entry-free and empty-row matrices, array-less and allocated entry-free containers) x every enabled "
-                "call with every argument (target format, clone mode, target data/index type, permutation pair, poke position); (b) all histories of "
+                "call with every argument (target format, clone mode, target data/index type, permutation pair, poke position), incl. the "
+                "building routes: SparseMatrixCSCR(csr, mirror) for every non-empty ascending row list (rows that are empty in the source included), "
+                "the converting constructors MT(const MT_&) and dst = src.clone(mode), the allocating constructors, DenseMatrix(m,n,v), "
+                "SparseMatrixFactory::add/make_csr in three insertion orders, SparseMatrixCSR::convert_reverse, and the Adjacency::Permutation "
+                "arguments of permute built through perm / inv_perm / swap / inv_swap / inverse(); (b) all histories of "
                 "2-3 (thorough: 4) calls over 2-3 slots on the chain palette; (c) thorough: seeded random histories of 10 and 16 calls (-simulate). "
-                "After each call every slot is compared (dimensions, used_elements, raw arrays, dense expansion, pointer identity). "
+                "After each call every slot is compared (dimensions, size(), used_elements, used_rows, raw arrays, validity of row pointer / "
+                "column index / row number arrays, dense expansion, pointer identity). "
                 "distinct = distinct (seed, call sequence with arguments)")
     for c in samples[3:4] + samples[9:10] + samples[-2:]:
         chk.sample({"seed": {k: c["steps"][0]["exp"][0]["st"][k] for k in ("fmt", "ty", "m", "n", "dense")},
@@ -277,7 +298,10 @@ def run(chk):
     chk.assumptions = ["values are small integers (exact in float and double); conversion of values that are not representable in the target type is not explored",
                        "reference counting / freeing of the shared arrays is C20's subject; here only which arrays are shared is compared",
                        "generic convert(MT_) and banded<-csr are only called with used_elements > 0 (their documented XASSERT precondition)",
-                       "the contents of arrays that the API leaves uninitialised (Layout/Allocate clones, layout constructor) are not compared",
+                       "the contents of arrays that the API leaves uninitialised (Layout/Allocate clones, layout constructor, allocating constructors) are not compared",
+                       "the mirror of SparseMatrixCSCR(csr, mirror) has ascending indices (the CSCR format keeps its row numbers sorted) and at least one (XASSERT)",
+                       "SparseMatrixFactory::add is called once per position (what a repeated add of the same position does is not specified)",
+                       "constructors from files / byte streams are C05's subject, move construction / assignment C20's, the Permutation class itself C19's",
                        "a history is compared up to its first disagreement; calls after a known finding in the same history are not judged"]
 
 
